@@ -285,7 +285,7 @@ def gen_ws_handshake(r):
             name = b"X-Pad: "
             lines.insert(r.randrange(len(lines) + 1), name + b"p" * max(0, ln - len(name)))
         if r.random() < 0.3:
-            lines = [l.replace(b": ", b":  \t ", 1) if r.random() < 0.5 else l for l in lines]
+            lines = [l.replace(b": ", b":  \t ", 1) if (r.random() < 0.5 and len(l) < 140) else l for l in lines]
         if r.random() < 0.2:
             lines = [b"Connection: keep-alive, Upgrade" if l.lower().startswith(b"connection:") else l for l in lines]
     elif x < 0.82:
@@ -313,12 +313,12 @@ def gen_ws_handshake(r):
     return WS_GET + eol + eol.join(lines) + eol + eol, kind
 
 
-def gen_ws_msg(r):
+def gen_ws_msg(r, max_tok=300):
     """a CoAP-over-WebSocket message (no length field) of a predictable kind"""
     x = r.random()
     if x < 0.55:
         code = r.choice([1, 2, 3, 4, 5, 6, 7])
-        tl = r.choice([0, 0, 1, 4, 8, 12, 13, 20, 269, 300])
+        tl = r.choice([t for t in [0, 0, 1, 4, 8, 12, 13, 20, 269, 300] if t <= max_tok])
         opts = _opts(r, SAFE_REQ_OPTS, r.choice([0, 1, 2, 3]))
         if code == 5 and not any(o[0] == 12 for o in opts):
             opts.append((12, bytes([60])))
@@ -354,6 +354,11 @@ def gen_ws_stream(r, hs=None, small=False):
             m, code = gen_ws_msg(r)
             while len(m) > WS_RX or (small and len(m) > 12):
                 m, code = gen_ws_msg(r)
+            if not small and r.random() < 0.06:
+                # a message that fills the receive buffer exactly / lacks one byte
+                want = WS_RX - r.choice([0, 0, 1])
+                code = r.choice([2, 3])
+                m = gen_wire.py_serialize("ws", 0, code, 0, b"", [(11, b"f")], gen_wire.rbytes(r, want - 5))
             lf = None
             if r.random() < 0.15:
                 lf = 64 if r.random() < 0.5 else 16
@@ -369,13 +374,16 @@ def gen_ws_stream(r, hs=None, small=False):
         x = r.random()
         if x < 0.1:
             m, _ = gen_ws_msg(r)
+            while len(m) > WS_RX:          # an incomplete frame that is also too big would close
+                m, _ = gen_ws_msg(r)
             f = ws_frame(m, mask=gen_wire.rbytes(r, 4))
             cut = r.randrange(1, len(f))
             parts.append(f[:cut])
             tail = "partial"
         elif x < 0.2:
             # oversize declaration, followed by some of its body
-            sz = r.choice([1473, 1474, 2000, 65535, 65536, 1 << 31, (1 << 63) + 5])
+            sz = r.choice([1473, 1474, 2000, 65535, 65536, 1 << 31, (1 << 63) + 5] +
+                          [(1 << k) + r.choice([0, 3, 100]) for k in (16, 24, 32, 40, 48, 56)])
             lf = 16 if sz < 65536 and r.random() < 0.7 else 64
             h = bytes([0x82, 0x80 | (126 if lf == 16 else 127)]) + sz.to_bytes(2 if lf == 16 else 8, "big") + gen_wire.rbytes(r, 4)
             parts.append(h + gen_wire.rbytes(r, r.choice([0, 0, 1, 50, 99, 100, 101, 200, 1500])))
@@ -395,5 +403,117 @@ def gen_ws_stream(r, hs=None, small=False):
     stream = b"".join(parts)
     closes = tail in ("oversize", "unmasked", "badop", "closeframe", "longline")
     expect = None if tail in ("bad", "edgeline") else (codes, 1 if closes else 0, hkind in ("ok", "ok-variant"))
+    return stream, {"hs": hkind, "tail": tail, "hot": [h for h in hot if h < len(stream)],
+                    "expect": expect, "hslen": len(hsb)}
+
+
+# ------------------------------------------------------------------ WebSocket (client side)
+
+WSC_LINES = [b"Upgrade: websocket", b"Connection: Upgrade",
+             b"Sec-WebSocket-Accept: Bz3qJYTGdOe8gUSpLosEdiLKDrk=", b"Sec-WebSocket-Protocol: coap"]
+WSC_FIRST = b"HTTP/1.1 101 Switching Protocols"
+
+
+def gen_wsc_handshake(r):
+    """server's answer to the client's upgrade request (client key = 00 01 .. 0f)"""
+    x = r.random()
+    lines = list(WSC_LINES)
+    first = WSC_FIRST
+    eol = b"\r\n"
+    kind = "ok"
+    if x < 0.45:
+        pass
+    elif x < 0.75:
+        kind = "ok-variant"
+        r.shuffle(lines)
+        if r.random() < 0.3:
+            eol = b"\n"
+        if r.random() < 0.4:
+            lines = [(_case_mix(r, l.split(b" ")[0]) + b" " + l.split(b" ", 1)[1]) if not l.startswith(b"Sec-WebSocket-Accept") else l
+                     for l in lines]
+        if r.random() < 0.4:
+            lines.insert(r.randrange(len(lines) + 1), b"Server: " + b"s" * r.choice([3, 60, 120, 135, 145, 148]))
+        if r.random() < 0.3:
+            first = r.choice([b"HTTP/1.1 101", b"HTTP/1.1   101 OK", b"HTTP/1.1 \t101 Switching Protocols"])
+    elif x < 0.85:
+        kind = "longline"
+        lines.insert(r.randrange(len(lines) + 1), b"X-Long: " + b"L" * (r.choice([160, 161, 200]) - 8))
+    else:
+        kind = "bad"
+        y = r.random()
+        if y < 0.2:
+            first = r.choice([b"HTTP/1.1 200 OK", b"HTTP/1.0 101 x", b"http/1.1 101 x", b"HTTP/1.1 x101", b"HTTP/1.1", b"HTTP/1.1\t101"])
+        elif y < 0.4:
+            del lines[r.randrange(len(lines))]
+        elif y < 0.6:
+            lines.append(r.choice(lines))
+        elif y < 0.8:
+            lines = [l.replace(b"Bz3q", b"Az3q") for l in lines]
+        else:
+            lines.insert(r.randrange(len(lines)), b"NoSeparatorHere")
+    return first + eol + eol.join(lines) + eol + eol, kind
+
+
+def gen_wsc_stream(r, hs=None, small=False):
+    """-> (stream, meta): response handshake, 1..6 unmasked frames (short ones: several fit into the
+    14-byte read-ahead), optional tail"""
+    hsb, hkind = hs if hs else gen_wsc_handshake(r)
+    parts = [hsb]
+    pos = len(hsb)
+    hot = list(range(max(1, pos - 6), pos + 1))
+    codes = []
+    tail = "none"
+    if hkind in ("ok", "ok-variant"):
+        n = r.choice([1, 2, 3, 4, 6]) if not small else r.choice([2, 3, 4])
+        for i in range(n):
+            if small or r.random() < 0.5:
+                # short messages: 3..7 bytes
+                code = r.choice([69, 68, 65, 1, 2, 226, 227])
+                tl = r.choice([0, 0, 1, 2])
+                if code in (226, 227):
+                    m = gen_wire.py_serialize("ws", 0, code, 0, b"", [(2, b"")], b"")
+                else:
+                    m = gen_wire.py_serialize("ws", 0, code, 0, gen_wire.rbytes(r, tl), [],
+                                              gen_wire.rbytes(r, r.choice([0, 1, 2])))
+                    if len(m) < 3:
+                        m = gen_wire.py_serialize("ws", 0, code, 0, b"\x01", [], b"")
+            else:
+                # a client session accepts request tokens of at most 8 bytes unless negotiated
+                m, code = gen_ws_msg(r, max_tok=8)
+                while len(m) > WS_RX:
+                    m, code = gen_ws_msg(r, max_tok=8)
+            f = ws_frame(m, mask=None, lenform=(16 if (len(m) >= 126 or r.random() < 0.05) else None))
+            hl = len(f) - len(m)
+            hot.extend(range(pos + 1, pos + hl + 1))
+            hot.append(pos + len(f))
+            parts.append(f)
+            if len(m) > 2:
+                codes.append(code)
+            pos += len(f)
+        x = r.random()
+        if x < 0.1:
+            m, _ = gen_ws_msg(r)
+            while len(m) > WS_RX:
+                m, _ = gen_ws_msg(r)
+            f = ws_frame(m, mask=None)
+            parts.append(f[:r.randrange(1, len(f))])
+            tail = "partial"
+        elif x < 0.18:
+            sz = r.choice([1473, 2000, 65535, 1 << 31] + [(1 << k) + r.choice([0, 3, 100]) for k in (16, 24, 32, 40, 48, 56)])
+            lf = 16 if sz < 65536 else 64
+            h = bytes([0x82, 126 if lf == 16 else 127]) + sz.to_bytes(2 if lf == 16 else 8, "big")
+            parts.append(h + gen_wire.rbytes(r, r.choice([0, 50, 101, 300])))
+            tail = "oversize"
+        elif x < 0.24:
+            parts.append(ws_frame(b"hi!", mask=None, op=r.choice([0, 1, 9, 10])))
+            tail = "badop"
+        elif x < 0.3:
+            parts.append(ws_frame(b"\x03\xe8", mask=None, op=8))
+            tail = "closeframe"
+    else:
+        tail = hkind
+    stream = b"".join(parts)
+    closes = tail in ("oversize", "badop", "closeframe", "longline")
+    expect = None if tail == "bad" else (codes, 1 if closes else 0, hkind in ("ok", "ok-variant"))
     return stream, {"hs": hkind, "tail": tail, "hot": [h for h in hot if h < len(stream)],
                     "expect": expect, "hslen": len(hsb)}
